@@ -784,16 +784,18 @@ std::shared_ptr< numa_vector<V> > diagonal(const crs<V, C, P> &A, bool invert = 
 
 #pragma omp parallel for
     for(ptrdiff_t i = 0; i < static_cast<ptrdiff_t>(n); ++i) {
+        // A diagonal entry that is not stored is zero.
+        V d = math::zero<V>();
         for(auto a = A.row_begin(i); a; ++a) {
             if (a.col() == i) {
-                V d = a.value();
-                if (invert) {
-                    d = math::is_zero(d) ? math::identity<V>() : math::inverse(d);
-                }
-                (*dia)[i] = d;
+                d = a.value();
                 break;
             }
         }
+        if (invert) {
+            d = math::is_zero(d) ? math::identity<V>() : math::inverse(d);
+        }
+        (*dia)[i] = d;
     }
 
     return dia;
